@@ -639,7 +639,7 @@ package priority
 //@   modifies gMainStarted, gDivErr, gPerm, gInv, anyelems(uint)
 //@   ensures [*] result1 == nil ==> result0 != nil
 //@   ensures [C16] the-goroutine-that-answers-stop-is-running: result1 == nil ==> gMainStarted
-//@   ensures [C17] requests-are-handed-over-synchronously: result1 == nil ==> (cap(result0.inputAdds) == 0 && cap(result0.inputRmvs) == 0)
+//@   ensures [C02 C17] requests-are-handed-over-synchronously: result1 == nil ==> (cap(result0.inputAdds) == 0 && cap(result0.inputRmvs) == 0)
 //@   ensures [* C01 C02] options-are-kept: result1 == nil ==> (result0.opts.HandlersQuantity == opts.HandlersQuantity && result0.opts.Output == opts.Output && result0.opts.Feedback == opts.Feedback && result0.opts.Inputs == opts.Inputs)
 
 // ---------------------------------------------------------------- C14: the dividers
